@@ -55,6 +55,11 @@ def shards(tier, seed):
         for t in [(5, 0, 0), (3, 1, 1)]:
             sh += mk('d=5: small grade blocks', spaces.cfg_pqr(*t), ('Gsmall',), ('Gsmall',), 4)
         sh += mk('d=7 lazy: sparse tuples', spaces.cfg_pqr(6, 0, 1), ('sparse3',), ('sparse3',), 4)
+    # cross-algebra histories: all signature orderings of one dimension in ONE process, forward and backward
+    for d in (1, 2):
+        for order in (spaces.sig(d), list(reversed(spaces.sig(d)))):
+            sh.append(dict(stratum='all signature orderings of d<=2 one after the other in one process (two orders), subsets <=2 blades',
+                           seq=[binprog.mk('seq', spaces.cfg_sig(s), ('S', 2), ('S', 2), 1)[0] for s in order]))
     return sh
 
 
@@ -84,6 +89,9 @@ def addd(x, y, sign=1):
 
 
 def run_shard(shard):
+    if 'seq' in shard:
+        from ..common import run_sequence
+        return run_sequence(run_shard, shard)
     res = Result()
     cfg = shard['cfg']
     alg = make_algebra(cfg)
